@@ -555,4 +555,168 @@ theorem rsplitDotExt_no_dot (s e : Str) (h : rsplitDotExt s = some e) : '.' ∉ 
     have := mem_takeWhile_sat _ _ _ hm
     simp at this
 
+/-! ## literal stretches and `**` -/
+
+/-- a literal (wildcard-free) stretch at the head of a pattern must be the head of the key -/
+theorem globMatch_lit_append (a p k : Str) (ha : ∀ c ∈ a, isWild c = false) :
+    globMatch (a ++ p) k = true ↔ ∃ r, k = a ++ r ∧ globMatch p r = true := by
+  induction a generalizing k with
+  | nil => simp
+  | cons c a ih =>
+    have hc : c ≠ '*' := by rintro rfl; have := ha '*' (by simp); simp [isWild] at this
+    have hq : c ≠ '?' := by rintro rfl; have := ha '?' (by simp); simp [isWild] at this
+    have ha' : ∀ x ∈ a, isWild x = false := fun x hx => ha x (by simp [hx])
+    rw [List.cons_append, globMatch.eq_def]
+    simp only [hc, hq, if_false]
+    cases k with
+    | nil => simp
+    | cons x k =>
+      simp only [Bool.and_eq_true, beq_iff_eq, ih k ha']
+      constructor
+      · rintro ⟨rfl, r, rfl, hr⟩; exact ⟨r, rfl, hr⟩
+      · rintro ⟨r, he, hr⟩
+        have h1 : x = c ∧ k = a ++ r := by simpa using he
+        exact ⟨h1.1, r, h1.2, hr⟩
+
+theorem globMatch_literal (b k : Str) (hb : ∀ c ∈ b, isWild c = false) :
+    globMatch b k = true ↔ k = b := by
+  have := globMatch_lit_append b [] k hb
+  rw [List.append_nil] at this
+  rw [this]
+  constructor
+  · rintro ⟨r, rfl, hr⟩
+    have : r = [] := by simpa [globMatch] using hr
+    simp [this]
+  · rintro rfl; exact ⟨[], by simp, by simp [globMatch]⟩
+
+theorem globMatch_dstar (b k : Str) :
+    globMatch ('*' :: '*' :: b) k = true ↔ ∃ m r, k = m ++ r ∧ globMatch b r = true := by
+  rw [globMatch.eq_def]
+  simp only [if_true, splitLoop_iff]
+  constructor
+  · rintro ⟨s, r, rfl, _, hr⟩; exact ⟨s, r, rfl, hr⟩
+  · rintro ⟨s, r, rfl, hr⟩; exact ⟨s, r, rfl, by simp, hr⟩
+
+/-! ## the wire serialiser/codec instance -/
+
+theorem hex_not_ctl (c : Char) (h : isHexChar c = true) : c ≠ '\n' ∧ c ≠ '\r' := by
+  constructor <;> rintro rfl <;> revert h <;> decide
+
+theorem wireText_toNat (t : Str) : wireText (t.map Char.toNat) = some t := by
+  unfold wireText
+  have h1 : (t.map Char.toNat).all (· < 0x110000) = true := by
+    simp only [List.all_map, List.all_eq_true, Function.comp, decide_eq_true_eq]
+    intro c _
+    have := c.valid
+    rcases this with h | ⟨_, h⟩ <;> simp only [Char.toNat] <;> omega
+  rw [if_pos h1]
+  congr 1
+  rw [List.map_map]
+  conv => rhs; rw [← List.map_id t]
+  apply List.map_congr_left
+  intro c _
+  simp [Function.comp, Char.ofNat_toNat]
+
+theorem wire_magic_plain (t : Str) : wireExt.magic (wireExt.enc .plain t) = none := by
+  cases t with
+  | nil => rfl
+  | cons c rest =>
+    have hv : c.toNat < 0x110000 := by
+      rcases c.valid with h | ⟨_, h⟩ <;> simp only [Char.toNat] <;> omega
+    have h1 : c.toNat ≠ 0x110001 := by omega
+    have h2 : c.toNat ≠ 0x110002 := by omega
+    have h3 : c.toNat ≠ 0x110003 := by omega
+    have h4 : c.toNat ≠ 0x110004 := by omega
+    simp [wireExt, h1, h2, h3, h4]
+
+/-! ## key order on UTF-8 bytes -/
+
+/-- strictly smaller at the first differing byte (never decided by running out of bytes) -/
+def bytesLtAt : List Nat → List Nat → Bool
+  | p :: ps, q :: qs => decide (p < q) || (p == q && bytesLtAt ps qs)
+  | _, _ => false
+
+theorem bytesLe_of_ltAt (s t : List Nat) (h : bytesLtAt s t = true) :
+    bytesLe s t = true ∧ bytesLe t s = false := by
+  induction s generalizing t with
+  | nil => simp [bytesLtAt] at h
+  | cons p ps ih =>
+    cases t with
+    | nil => simp [bytesLtAt] at h
+    | cons q qs =>
+      simp only [bytesLtAt, Bool.or_eq_true, decide_eq_true_eq, Bool.and_eq_true, beq_iff_eq] at h
+      rcases h with h | ⟨rfl, h⟩
+      · have h1 : ¬ q < p := by omega
+        have h2 : ¬ q = p := by omega
+        simp [bytesLe, h, h1, h2]
+      · have := ih qs h
+        simp [bytesLe, this.1, this.2]
+
+theorem bytesLe_append_same (w s t : List Nat) : bytesLe (w ++ s) (w ++ t) = bytesLe s t := by
+  induction w with
+  | nil => rfl
+  | cons a w ih => simp [bytesLe, ih]
+
+theorem bytesLtAt_append (s t u v : List Nat) (h : bytesLtAt s t = true) : bytesLtAt (s ++ u) (t ++ v) = true := by
+  induction s generalizing t with
+  | nil => simp [bytesLtAt] at h
+  | cons p ps ih =>
+    cases t with
+    | nil => simp [bytesLtAt] at h
+    | cons q qs =>
+      simp only [bytesLtAt, Bool.or_eq_true, decide_eq_true_eq, Bool.and_eq_true, beq_iff_eq,
+        List.cons_append] at h ⊢
+      rcases h with h | ⟨rfl, h⟩
+      · exact Or.inl h
+      · exact Or.inr ⟨rfl, ih qs h⟩
+
+/-- UTF-8 is order preserving on single scalar values, and the order is decided at a byte both encodings have -/
+theorem utf8_lt (x y : Char) (h : x.toNat < y.toNat) : bytesLtAt (utf8 x) (utf8 y) = true := by
+  have hy : y.toNat < 0x110000 := by
+    rcases y.valid with h | ⟨_, h⟩ <;> simp only [Char.toNat] <;> omega
+  unfold utf8
+  dsimp only
+  generalize x.toNat = n at h ⊢
+  generalize y.toNat = m at h hy ⊢
+  by_cases a1 : n < 0x80 <;> by_cases a2 : n < 0x800 <;> by_cases a3 : n < 0x10000 <;>
+  by_cases b1 : m < 0x80 <;> by_cases b2 : m < 0x800 <;> by_cases b3 : m < 0x10000 <;>
+  simp only [a1, a2, a3, b1, b2, b3, if_true, if_false, bytesLtAt, Bool.or_eq_true, decide_eq_true_eq,
+    Bool.and_eq_true, beq_iff_eq, Bool.or_false, Bool.and_false] <;> omega
+
+theorem utf8_ne_nil (x : Char) : ∃ p ps, utf8 x = p :: ps := by
+  unfold utf8
+  dsimp only
+  split
+  · exact ⟨_, _, rfl⟩
+  · split
+    · exact ⟨_, _, rfl⟩
+    · split <;> exact ⟨_, _, rfl⟩
+
+/-- **Rust `String` order (bytes of the UTF-8 encoding) = the model's order on scalar values** -/
+theorem strLe_eq_bytesLe (a b : Str) : strLe a b = bytesLe (utf8s a) (utf8s b) := by
+  induction a generalizing b with
+  | nil => simp [strLe, utf8s, bytesLe]
+  | cons x a ih =>
+    cases b with
+    | nil =>
+      obtain ⟨p, ps, hp⟩ := utf8_ne_nil x
+      simp [strLe, utf8s, hp, bytesLe]
+    | cons y b =>
+      have e1 : utf8s (x :: a) = utf8 x ++ utf8s a := by simp [utf8s]
+      have e2 : utf8s (y :: b) = utf8 y ++ utf8s b := by simp [utf8s]
+      rw [e1, e2]
+      rcases Nat.lt_trichotomy x.toNat y.toNat with h | h | h
+      · have := bytesLe_of_ltAt _ _ (bytesLtAt_append _ _ (utf8s a) (utf8s b) (utf8_lt x y h))
+        rw [this.1]
+        simp [strLe, h]
+      · have hxy : x = y := Char.toNat_inj.mp h
+        subst hxy
+        rw [bytesLe_append_same, ← ih b]
+        simp [strLe]
+      · have := bytesLe_of_ltAt _ _ (bytesLtAt_append _ _ (utf8s b) (utf8s a) (utf8_lt y x h))
+        rw [this.2]
+        have h1 : ¬ x.toNat < y.toNat := by omega
+        have h2 : ¬ x = y := by rintro rfl; omega
+        simp [strLe, h1, h2]
+
 end IB.CloudGlob
